@@ -4,8 +4,9 @@
    index laws of Props/C07.v / C07w4.v hold for it.  Bridges of the translator builder: Proofs/W4Sptensor.v, Proofs/W4KtensorLaws.v
    (see also Props/W4C07.v, Props/W4C08.v).  Proofs: Proofs/C07Gen4.v. *)
 From Coq Require Import List ZArith Arith Bool.
-From PV Require Import Base.Index Base.Perm Np.NpZ Np.NpZ2 Np.NpZ3 Np.NpZ3b Gen.GenUtils3b Gen.GenSptensor4 Gen.GenKtensor4
-  Model.Sparse Model.Repr Model.C07Ops Model.C07Req Model.C07W5 Model.W4Ktensor Model.W4Sptensor Model.C07Gen4 Proofs.C07Gen4.
+From PV Require Import Base.Index Base.Perm Np.NpZ Np.NpZ2 Np.NpZ3 Np.NpZ3b Gen.GenUtils3b Gen.GenSptensor4 Gen.GenSptensor4d Gen.GenKtensor4 Proofs.W4ReshapeModel
+  Model.Sparse Model.Repr Model.C07Ops Model.C07Impl Model.C07Req Model.C07W5 Model.W4Ktensor Model.W4Sptensor Model.C07Gen4 Proofs.C07Gen4
+  Np.NpZ4d Gen.GenSptensor4b Proofs.C07GenSq.
 Import ListNotations.
 Local Open Scope Z_scope.
 
@@ -43,6 +44,53 @@ Theorem C07_permute_sparse_bool_refused_generated : forall (self : sptz) (x : py
   sptensor_permute_req self x = Err /\ forall (V : Type) (S : Sparse.sparse V), permute_sp_req S x = None.
 Proof. exact sp_permute_req_bool_c07. Qed.
 Print Assumptions C07_permute_sparse_bool_refused_generated.
+
+(* request -> generated parse_shape -> generated sptensor.reshape (Gen/GenSptensor4d.v, over the generated tt_sub2ind / tt_ind2sub)
+   = the request-level specification reshape_sp_req, refusals included (mode numbers outside 0..N-1: N-C07-3 repaired; negative
+   sizes: N-C07-4 repaired; a target without modes; a changed element count), on every coordinate list with stored entries *)
+Theorem C07_reshape_sparse_request_generated : forall (S : sparse Z) (x : pyshp) (oldz : vec),
+  ssubs S <> nil -> Forall (fun j => inb (sshape S) j = true) (ssubs S) -> length (svals S) = length (ssubs S) -> oldz <> nil ->
+  sptensor_reshape_req (of_Sp S) x (Some oldz) =
+    match reshape_sp_req S x oldz with Some R => Ok (of_Sp R) | None => Err end.
+Proof. exact sp_reshape_req_c07. Qed.
+Print Assumptions C07_reshape_sparse_request_generated.
+
+Example C07_example_generated_reshape_requests :
+  let S := mkspt [[1; 2; 3]; [0; 1; 2]] [5; -7] [2; 3; 4] in
+  sptensor_reshape_req S (STuple [EInt 4; EInt 2]) (Some [2; 0]) = Ok (mkspt [[2; 3; 1]; [1; 2; 0]] [5; -7] [3; 4; 2]) /\
+  sptensor_reshape_req S (SList [EInt 4; EInt 2]) (Some [0; 2]) = Ok (mkspt [[2; 3; 1]; [1; 0; 1]] [5; -7] [3; 4; 2]) /\
+  sptensor_reshape_req S (STuple [EInt 4; EInt 2]) (Some [-1; 0]) = Err /\
+  sptensor_reshape_req S (STuple [EInt (-4); EInt (-2)]) (Some [2; 0]) = Err /\
+  sptensor_reshape_req S (STuple []) None = Err /\
+  sptensor_reshape_req S (SInt 24) None = Ok (mkspt [[23]; [14]] [5; -7] [24]).
+Proof. repeat split; reflexivity. Qed.
+
+(* the GENERATED whole method sptensor.squeeze (Gen/GenSptensor4b.v) returns exactly what the code-path model squeeze_sp_impl of
+   Model/C07Impl.v returns — a tensor, the bare entry, or the refusal of .item() on more than one stored value — on every
+   coordinate list with at least one mode, in-range subscripts and one value per row; with C07_squeeze_sparse_code (distinct
+   subscripts) that is the squeeze model of Model/C07Ops.v with its index law (C07_squeeze_sparse) *)
+Theorem C07_squeeze_sparse_generated : forall S : sparse Z, sshape S <> nil ->
+  Forall (fun j => inb (sshape S) j = true) (ssubs S) -> length (svals S) = length (ssubs S) ->
+  sptensor_squeeze (of_Sp S) =
+    match squeeze_sp_impl 0%Z S with
+    | Some (C07Ops.SqT R) => Ok (NpZ4d.SqTensor (of_Sp R))
+    | Some (C07Ops.SqScalar v) => Ok (NpZ4d.SqScalar v)
+    | None => Err
+    end.
+Proof. exact gen_sp_squeeze_model. Qed.
+Print Assumptions C07_squeeze_sparse_generated.
+
+Theorem C07_squeeze_sparse_generated_res : forall S : sparse Z, sshape S <> nil ->
+  Forall (fun j => inb (sshape S) j = true) (ssubs S) -> length (svals S) = length (ssubs S) ->
+  sptensor_squeeze_res (of_Sp S) = squeeze_sp_impl 0%Z S.
+Proof. exact gen_sp_squeeze_res. Qed.
+Print Assumptions C07_squeeze_sparse_generated_res.
+
+Example C07_example_generated_squeeze :
+  sptensor_squeeze_res (mkspt [[1; 0; 2]; [0; 0; 1]] [7; -3] [2; 1; 3]) = Some (C07Ops.SqT (mkSp [2; 3]%nat [[1; 2]; [0; 1]]%nat [7; -3])) /\
+  sptensor_squeeze_res (mkspt [[0; 0]] [9] [1; 1]) = Some (C07Ops.SqScalar 9) /\
+  sptensor_squeeze_res (mkspt [[0; 0]; [0; 0]] [9; 4] [1; 1]) = None.
+Proof. repeat split; reflexivity. Qed.
 
 Example C07_example_generated_requests :
   let col := SArr (mknd [3; 1] DInt [NFin 2; NFin 0; NFin 1]) in
